@@ -170,6 +170,15 @@ pub fn parse_content(s: &str) -> Option<Vec<u8>> {
     match parts.as_slice() {
         ["gen", l, sd] => Some(gen_bytes(l.parse().ok()?, sd.parse().ok()?)),
         ["zero", l] => Some(vec![0u8; l.parse().ok()?]),
+        // `pat:<hex>:<len>`: the byte pattern repeated up to the length
+        ["pat", h, l] => {
+            let p = unhex(h)?;
+            let n: usize = l.parse().ok()?;
+            if p.is_empty() {
+                return None;
+            }
+            Some((0..n).map(|i| p[i % p.len()]).collect())
+        }
         [h] => unhex(h),
         _ => None,
     }
